@@ -10,8 +10,16 @@ def run_c14_c(ck, pairs, make_cases):
         for s, vals, origin in make_cases(t, k):
             cases = [dict(v=v, obj=cside.py_store(s.top, v), kind="value") for v in vals]
             items.append(dict(schema=s, cases=cases, origin=origin))
-    le = cside.run_schemas(ck, False, items, "c14le")
+    # positions the (type, offset) space above does not contain: the element sits in a ROW of a 2-D
+    # array (alias of an array used as array element; every row width that meets a fast-path
+    # threshold) or is an ALIAS of a narrow int used as array element
+    import cboundary
     be = cside.run_schemas(ck, True, items, "c14be", want_spec=False)
+    items = items + cboundary.items_of(ck.seed, cboundary.c_catalogue(ck.seed, ("rows", "narrow")), n_values=3, junk=0)
+    le = cside.run_schemas(ck, False, items, "c14le")
+    bx = cside.run_schemas(ck, True, cboundary.items_of(ck.seed, cboundary.be_exact_catalogue(ck.seed, ck.quick), n_values=3,
+                                                        junk=0, host="BE"), "c14bx", host="BE")
+    ck.coverage["tie"]["c_runtime_be_build_be_storage_vs_spec"] = bx
     ck.coverage["tie"]["c_runtime_le"] = le
     ck.coverage["tie"]["c_runtime_be_build_on_le_host"] = be
     ck.coverage["evaluations"] += le.get("observations", 0) + be.get("observations", 0)
